@@ -4,13 +4,22 @@
   little-endian byte helpers, and the per-opcode agreement lemma `exec_eq_spec`.
 -/
 import RbpfModel.Model.Isa
+import Lean
 namespace Rbpf
 open Interp
 
 /-- what the ISA prescribes for a raw instruction: decode, then execute; an undecodable opcode is the
     interpreter's `unreachable!()` -/
 def Isa.spec (env : Env) (s : State) (insn : Insn) : Outcome :=
-  match Isa.decode insn with | some i => Isa.exec env s i | none => Outcome.panic
+  (Isa.decode insn).elim Outcome.panic (Isa.exec env s)
+
+theorem Isa.spec_eq (env : Env) (s : State) (insn : Insn) :
+    Isa.spec env s insn = (match Isa.decode insn with | some i => Isa.exec env s i | none => Outcome.panic) := by
+  unfold Isa.spec; cases Isa.decode insn <;> rfl
+
+theorem elim_ite {α β : Type} (c : Prop) [Decidable c] (a b : Option α) (d : β) (f : α → β) :
+    (if c then a else b).elim d f = if c then a.elim d f else b.elim d f := by
+  split <;> rfl
 
 /-- observers on outcomes (`Outcome` has no decidable equality) -/
 def Outcome.pc? : Outcome → Option Nat
@@ -33,6 +42,10 @@ theorem rd_panic (s : State) (i : Nat) : rd s i (fun _ => Outcome.panic) = Outco
 theorem rd_comm (s : State) (i j : Nat) (k : BitVec 64 → BitVec 64 → Outcome) :
     (rd s i fun a => rd s j fun b => k a b) = rd s j fun b => rd s i fun a => k a b := by
   unfold rd; split <;> split <;> rfl
+
+theorem rd_ite (c : Prop) [Decidable c] (s : State) (i : Nat) (f g : BitVec 64 → Outcome) :
+    (rd s i fun d => if c then f d else g d) = if c then rd s i f else rd s i g := by
+  split <;> rfl
 
 theorem ite_wr_rd (c : Prop) [Decidable c] (s : State) (i : Nat) (v : BitVec 64) (f : BitVec 64 → BitVec 64) :
     (if c then wr s i v else rd s i fun d => wr s i (f d)) = rd s i fun d => wr s i (if c then v else f d) := by
@@ -79,15 +92,139 @@ theorem leValue_leBytes (v w : Nat) : leValue (leBytes v w) = v % 256 ^ w := by
     simp only [leBytes, leValue, ih, BitVec.toNat_ofNat]
     rw [show 256 ^ (w + 1) = 256 * 256 ^ w by rw [Nat.pow_succ, Nat.mul_comm], Nat.mod_mul]
 
-theorem ofNat_mod_256_2 (d : BitVec 64) : BitVec.ofNat 64 (d.toNat % 256 ^ 2) = (d.setWidth 16).setWidth 64 := by
+/-- the moduli appear as literals once `simp` has evaluated `256 ^ w` / `2 ^ (8 * w)` -/
+theorem ofNat_mod_2_16 (d : BitVec 64) : BitVec.ofNat 64 (d.toNat % 65536) = (d.setWidth 16).setWidth 64 := by
   apply BitVec.eq_of_toNat_eq; have := d.isLt; simp <;> omega
-theorem ofNat_mod_256_4 (d : BitVec 64) : BitVec.ofNat 64 (d.toNat % 256 ^ 4) = (d.setWidth 32).setWidth 64 := by
+theorem ofNat_mod_2_32 (d : BitVec 64) : BitVec.ofNat 64 (d.toNat % 4294967296) = (d.setWidth 32).setWidth 64 := by
   apply BitVec.eq_of_toNat_eq; have := d.isLt; simp <;> omega
-theorem ofNat_mod_256_8 (d : BitVec 64) : BitVec.ofNat 64 (d.toNat % 256 ^ 8) = d := by
+theorem ofNat_mod_2_64 (d : BitVec 64) : BitVec.ofNat 64 (d.toNat % 18446744073709551616) = d := by
   apply BitVec.eq_of_toNat_eq; have := d.isLt; simp <;> omega
-theorem ofNat_mod_2_32 (d : BitVec 64) : BitVec.ofNat 64 (d.toNat % 2 ^ 32) = (d.setWidth 32).setWidth 64 := by
-  apply BitVec.eq_of_toNat_eq; have := d.isLt; simp <;> omega
-theorem ofNat_mod_2_64 (d : BitVec 64) : BitVec.ofNat 64 (d.toNat % 2 ^ 64) = d := by
-  apply BitVec.eq_of_toNat_eq; have := d.isLt; simp <;> omega
+
+-- per-opcode agreement ----------------------------------------------------------------------------
+
+/-- the interpreter's arm for opcode byte `n` computes what the ISA prescribes, for all operand fields
+    and states (the F7 instructions excepted) -/
+def OpcOK (n : Nat) : Prop :=
+  ∀ (env : Env) (s : State) (dst src : BitVec 8) (off : BitVec 16) (imm : BitVec 32),
+    Isa.isF7 ⟨BitVec.ofNat 8 n, dst, src, off, imm⟩ = false →
+    Interp.exec env s ⟨BitVec.ofNat 8 n, dst, src, off, imm⟩ = Isa.spec env s ⟨BitVec.ofNat 8 n, dst, src, off, imm⟩
+
+open Lean Elab Tactic Meta in
+/-- Reduce the left-hand side `Interp.exec env s ⟨literal opcode, …⟩` of the goal to the selected arm by
+    evaluation: `exec`, its matchers (a `dite` chain over the opcode literal) and `Eq` casts are unfolded,
+    nothing else.  (`simp` would go through the 121 match equations instead, which is slow and yields
+    proof terms quadratic in the arm's position.)  The goal is replaced by a definitionally equal one,
+    so the kernel re-checks the step. -/
+elab "reduce_exec_lhs" : tactic => liftMetaTactic fun g => do
+  let t ← instantiateMVars (← g.getType)
+  let some (_, lhs, rhs) := t.eq? | throwError "reduce_exec_lhs: goal is not an equation"
+  let allow : List Name := [``Rbpf.Interp.exec, ``dite, ``cast, ``id]
+  let lhs' ← whnfHeadPred lhs fun e => do
+    let .const c _ := e.getAppFn | return false
+    if allow.contains c then return true
+    if (← getMatcherInfo? c).isSome then return true
+    return c.getPrefix == ``Eq
+  -- the cast helpers are unfolded everywhere (also inside `Decidable` instance arguments, which `simp`
+  -- would leave stale)
+  let casts : List Name := [``Rbpf.Interp.lo32, ``Rbpf.Interp.zx32, ``Rbpf.Interp.sx32]
+  let t' ← deltaExpand (← mkEq lhs' rhs) (casts.contains ·)
+  return [← g.replaceTargetDefEq t']
+
+set_option linter.unusedSimpArgs false
+
+/-- one opcode literal: select the interpreter's arm, unfold the ISA side, normalise both -/
+macro "opc_tac" : tactic => `(tactic| (
+  intro env s dst src off imm hF
+  simp [Isa.isF7] at hF
+  reduce_exec_lhs
+  simp [Isa.spec, Isa.decode, Isa.exec, Isa.aluOp?, Isa.cond?, Isa.sizeBytes, Isa.aluSem, Isa.condSem,
+    Isa.operand64, Interp.branch, Interp.bswap,
+    rd_wr_const, rd_panic, ite_wr_rd, rd_ite, elim_ite, setWidth32_signExtend64, signExtend64_eq_zero, sx32_and_mask,
+    lddw_value, setWidth_ite, leValue_leBytes, ofNat_mod_2_16, ofNat_mod_2_32, ofNat_mod_2_64,
+    BitVec.signExtend_eq_setWidth_of_msb_false, hF]
+  -- what can remain: `if`s whose `Decidable` instance still mentions an unfolded definition (closed by
+  -- `rfl`), and the two register reads in the other order
+  all_goals (first | rfl | (conv => lhs; rw [rd_comm]) | skip)
+  all_goals (try rfl)))
+
+macro "opc_block " h:ident : tactic =>
+  `(tactic| (rcases $h:ident with rfl | rfl | rfl | rfl | rfl | rfl | rfl | rfl <;> opc_tac))
+
+set_option maxRecDepth 4000
+
+theorem opcOK_00 (n : Nat) (h : n = 0x00 ∨ n = 0x01 ∨ n = 0x02 ∨ n = 0x03 ∨ n = 0x04 ∨ n = 0x05 ∨ n = 0x06 ∨ n = 0x07) : OpcOK n := by opc_block h
+theorem opcOK_08 (n : Nat) (h : n = 0x08 ∨ n = 0x09 ∨ n = 0x0a ∨ n = 0x0b ∨ n = 0x0c ∨ n = 0x0d ∨ n = 0x0e ∨ n = 0x0f) : OpcOK n := by opc_block h
+theorem opcOK_10 (n : Nat) (h : n = 0x10 ∨ n = 0x11 ∨ n = 0x12 ∨ n = 0x13 ∨ n = 0x14 ∨ n = 0x15 ∨ n = 0x16 ∨ n = 0x17) : OpcOK n := by opc_block h
+theorem opcOK_18 (n : Nat) (h : n = 0x18 ∨ n = 0x19 ∨ n = 0x1a ∨ n = 0x1b ∨ n = 0x1c ∨ n = 0x1d ∨ n = 0x1e ∨ n = 0x1f) : OpcOK n := by opc_block h
+theorem opcOK_20 (n : Nat) (h : n = 0x20 ∨ n = 0x21 ∨ n = 0x22 ∨ n = 0x23 ∨ n = 0x24 ∨ n = 0x25 ∨ n = 0x26 ∨ n = 0x27) : OpcOK n := by opc_block h
+theorem opcOK_28 (n : Nat) (h : n = 0x28 ∨ n = 0x29 ∨ n = 0x2a ∨ n = 0x2b ∨ n = 0x2c ∨ n = 0x2d ∨ n = 0x2e ∨ n = 0x2f) : OpcOK n := by opc_block h
+theorem opcOK_30 (n : Nat) (h : n = 0x30 ∨ n = 0x31 ∨ n = 0x32 ∨ n = 0x33 ∨ n = 0x34 ∨ n = 0x35 ∨ n = 0x36 ∨ n = 0x37) : OpcOK n := by opc_block h
+theorem opcOK_38 (n : Nat) (h : n = 0x38 ∨ n = 0x39 ∨ n = 0x3a ∨ n = 0x3b ∨ n = 0x3c ∨ n = 0x3d ∨ n = 0x3e ∨ n = 0x3f) : OpcOK n := by opc_block h
+theorem opcOK_40 (n : Nat) (h : n = 0x40 ∨ n = 0x41 ∨ n = 0x42 ∨ n = 0x43 ∨ n = 0x44 ∨ n = 0x45 ∨ n = 0x46 ∨ n = 0x47) : OpcOK n := by opc_block h
+theorem opcOK_48 (n : Nat) (h : n = 0x48 ∨ n = 0x49 ∨ n = 0x4a ∨ n = 0x4b ∨ n = 0x4c ∨ n = 0x4d ∨ n = 0x4e ∨ n = 0x4f) : OpcOK n := by opc_block h
+theorem opcOK_50 (n : Nat) (h : n = 0x50 ∨ n = 0x51 ∨ n = 0x52 ∨ n = 0x53 ∨ n = 0x54 ∨ n = 0x55 ∨ n = 0x56 ∨ n = 0x57) : OpcOK n := by opc_block h
+theorem opcOK_58 (n : Nat) (h : n = 0x58 ∨ n = 0x59 ∨ n = 0x5a ∨ n = 0x5b ∨ n = 0x5c ∨ n = 0x5d ∨ n = 0x5e ∨ n = 0x5f) : OpcOK n := by opc_block h
+theorem opcOK_60 (n : Nat) (h : n = 0x60 ∨ n = 0x61 ∨ n = 0x62 ∨ n = 0x63 ∨ n = 0x64 ∨ n = 0x65 ∨ n = 0x66 ∨ n = 0x67) : OpcOK n := by opc_block h
+theorem opcOK_68 (n : Nat) (h : n = 0x68 ∨ n = 0x69 ∨ n = 0x6a ∨ n = 0x6b ∨ n = 0x6c ∨ n = 0x6d ∨ n = 0x6e ∨ n = 0x6f) : OpcOK n := by opc_block h
+theorem opcOK_70 (n : Nat) (h : n = 0x70 ∨ n = 0x71 ∨ n = 0x72 ∨ n = 0x73 ∨ n = 0x74 ∨ n = 0x75 ∨ n = 0x76 ∨ n = 0x77) : OpcOK n := by opc_block h
+theorem opcOK_78 (n : Nat) (h : n = 0x78 ∨ n = 0x79 ∨ n = 0x7a ∨ n = 0x7b ∨ n = 0x7c ∨ n = 0x7d ∨ n = 0x7e ∨ n = 0x7f) : OpcOK n := by opc_block h
+theorem opcOK_80 (n : Nat) (h : n = 0x80 ∨ n = 0x81 ∨ n = 0x82 ∨ n = 0x83 ∨ n = 0x84 ∨ n = 0x85 ∨ n = 0x86 ∨ n = 0x87) : OpcOK n := by opc_block h
+theorem opcOK_88 (n : Nat) (h : n = 0x88 ∨ n = 0x89 ∨ n = 0x8a ∨ n = 0x8b ∨ n = 0x8c ∨ n = 0x8d ∨ n = 0x8e ∨ n = 0x8f) : OpcOK n := by opc_block h
+theorem opcOK_90 (n : Nat) (h : n = 0x90 ∨ n = 0x91 ∨ n = 0x92 ∨ n = 0x93 ∨ n = 0x94 ∨ n = 0x95 ∨ n = 0x96 ∨ n = 0x97) : OpcOK n := by opc_block h
+theorem opcOK_98 (n : Nat) (h : n = 0x98 ∨ n = 0x99 ∨ n = 0x9a ∨ n = 0x9b ∨ n = 0x9c ∨ n = 0x9d ∨ n = 0x9e ∨ n = 0x9f) : OpcOK n := by opc_block h
+theorem opcOK_a0 (n : Nat) (h : n = 0xa0 ∨ n = 0xa1 ∨ n = 0xa2 ∨ n = 0xa3 ∨ n = 0xa4 ∨ n = 0xa5 ∨ n = 0xa6 ∨ n = 0xa7) : OpcOK n := by opc_block h
+theorem opcOK_a8 (n : Nat) (h : n = 0xa8 ∨ n = 0xa9 ∨ n = 0xaa ∨ n = 0xab ∨ n = 0xac ∨ n = 0xad ∨ n = 0xae ∨ n = 0xaf) : OpcOK n := by opc_block h
+theorem opcOK_b0 (n : Nat) (h : n = 0xb0 ∨ n = 0xb1 ∨ n = 0xb2 ∨ n = 0xb3 ∨ n = 0xb4 ∨ n = 0xb5 ∨ n = 0xb6 ∨ n = 0xb7) : OpcOK n := by opc_block h
+theorem opcOK_b8 (n : Nat) (h : n = 0xb8 ∨ n = 0xb9 ∨ n = 0xba ∨ n = 0xbb ∨ n = 0xbc ∨ n = 0xbd ∨ n = 0xbe ∨ n = 0xbf) : OpcOK n := by opc_block h
+theorem opcOK_c0 (n : Nat) (h : n = 0xc0 ∨ n = 0xc1 ∨ n = 0xc2 ∨ n = 0xc3 ∨ n = 0xc4 ∨ n = 0xc5 ∨ n = 0xc6 ∨ n = 0xc7) : OpcOK n := by opc_block h
+theorem opcOK_c8 (n : Nat) (h : n = 0xc8 ∨ n = 0xc9 ∨ n = 0xca ∨ n = 0xcb ∨ n = 0xcc ∨ n = 0xcd ∨ n = 0xce ∨ n = 0xcf) : OpcOK n := by opc_block h
+theorem opcOK_d0 (n : Nat) (h : n = 0xd0 ∨ n = 0xd1 ∨ n = 0xd2 ∨ n = 0xd3 ∨ n = 0xd4 ∨ n = 0xd5 ∨ n = 0xd6 ∨ n = 0xd7) : OpcOK n := by opc_block h
+theorem opcOK_d8 (n : Nat) (h : n = 0xd8 ∨ n = 0xd9 ∨ n = 0xda ∨ n = 0xdb ∨ n = 0xdc ∨ n = 0xdd ∨ n = 0xde ∨ n = 0xdf) : OpcOK n := by opc_block h
+theorem opcOK_e0 (n : Nat) (h : n = 0xe0 ∨ n = 0xe1 ∨ n = 0xe2 ∨ n = 0xe3 ∨ n = 0xe4 ∨ n = 0xe5 ∨ n = 0xe6 ∨ n = 0xe7) : OpcOK n := by opc_block h
+theorem opcOK_e8 (n : Nat) (h : n = 0xe8 ∨ n = 0xe9 ∨ n = 0xea ∨ n = 0xeb ∨ n = 0xec ∨ n = 0xed ∨ n = 0xee ∨ n = 0xef) : OpcOK n := by opc_block h
+theorem opcOK_f0 (n : Nat) (h : n = 0xf0 ∨ n = 0xf1 ∨ n = 0xf2 ∨ n = 0xf3 ∨ n = 0xf4 ∨ n = 0xf5 ∨ n = 0xf6 ∨ n = 0xf7) : OpcOK n := by opc_block h
+theorem opcOK_f8 (n : Nat) (h : n = 0xf8 ∨ n = 0xf9 ∨ n = 0xfa ∨ n = 0xfb ∨ n = 0xfc ∨ n = 0xfd ∨ n = 0xfe ∨ n = 0xff) : OpcOK n := by opc_block h
+
+theorem opcOK_all (n : Nat) (h : n < 256) : OpcOK n :=
+  if h0 : n < 8 then opcOK_00 n (by omega) else
+  if h1 : n < 16 then opcOK_08 n (by omega) else
+  if h2 : n < 24 then opcOK_10 n (by omega) else
+  if h3 : n < 32 then opcOK_18 n (by omega) else
+  if h4 : n < 40 then opcOK_20 n (by omega) else
+  if h5 : n < 48 then opcOK_28 n (by omega) else
+  if h6 : n < 56 then opcOK_30 n (by omega) else
+  if h7 : n < 64 then opcOK_38 n (by omega) else
+  if h8 : n < 72 then opcOK_40 n (by omega) else
+  if h9 : n < 80 then opcOK_48 n (by omega) else
+  if h10 : n < 88 then opcOK_50 n (by omega) else
+  if h11 : n < 96 then opcOK_58 n (by omega) else
+  if h12 : n < 104 then opcOK_60 n (by omega) else
+  if h13 : n < 112 then opcOK_68 n (by omega) else
+  if h14 : n < 120 then opcOK_70 n (by omega) else
+  if h15 : n < 128 then opcOK_78 n (by omega) else
+  if h16 : n < 136 then opcOK_80 n (by omega) else
+  if h17 : n < 144 then opcOK_88 n (by omega) else
+  if h18 : n < 152 then opcOK_90 n (by omega) else
+  if h19 : n < 160 then opcOK_98 n (by omega) else
+  if h20 : n < 168 then opcOK_a0 n (by omega) else
+  if h21 : n < 176 then opcOK_a8 n (by omega) else
+  if h22 : n < 184 then opcOK_b0 n (by omega) else
+  if h23 : n < 192 then opcOK_b8 n (by omega) else
+  if h24 : n < 200 then opcOK_c0 n (by omega) else
+  if h25 : n < 208 then opcOK_c8 n (by omega) else
+  if h26 : n < 216 then opcOK_d0 n (by omega) else
+  if h27 : n < 224 then opcOK_d8 n (by omega) else
+  if h28 : n < 232 then opcOK_e0 n (by omega) else
+  if h29 : n < 240 then opcOK_e8 n (by omega) else
+  if h30 : n < 248 then opcOK_f0 n (by omega) else
+  opcOK_f8 n (by omega)
+
+/-- every instruction except F7: the interpreter's arm computes what the ISA prescribes -/
+theorem exec_eq_spec (env : Env) (s : State) (insn : Insn) (h : Isa.isF7 insn = false) :
+    Interp.exec env s insn = Isa.spec env s insn := by
+  obtain ⟨opc, dst, src, off, imm⟩ := insn
+  have := opcOK_all opc.toNat opc.isLt env s dst src off imm
+  simp only [BitVec.ofNat_toNat, BitVec.setWidth_eq] at this
+  exact this h
 
 end Rbpf
